@@ -1790,6 +1790,37 @@ pub fn matrix_program(ci: usize, xi: usize) -> (String, String) {
     (format!("{}@{}", cn, xn), format!("{}{}\n{}", MATRIX_PRELUDE, body, MATRIX_PROBE))
 }
 
+/// expression wrappers with `H` as the hole: a second level of context between construct and statement
+pub const MATRIX_WRAPPERS: [(&str, &str); 16] = [
+    ("w-block-discard", "begin H; 1 end"),
+    ("w-block-keep", "begin 0; H end"),
+    ("w-then", "(if true then H else 0)"),
+    ("w-else", "(if false then 0 else H)"),
+    ("w-second-arg", "id2(t(1), H)"),
+    ("w-first-arg", "id2(H, t(2))"),
+    ("w-array-init", "array(2, H)"),
+    ("w-field-init", "(object begin let fld = H; end)"),
+    ("w-let", "(let WW = H)"),
+    ("w-let-read", "begin let WW = H; WW end"),
+    ("w-element-value", "(arr[0] <- H)"),
+    ("w-field-value", "(obj.y <- H)"),
+    ("w-dead-loop", "(while false do H)"),
+    ("w-loop-twice", "begin let i2 = 0; while i2 < 2 do begin H; i2 <- i2 + 1 end; i2 end"),
+    ("w-print-arg", "(print(\"w~;\", H))"),
+    ("w-method-arg", "obj.m(H)"),
+];
+
+/// construct `ci` inside wrapper `wi` inside context `xi`
+pub fn matrix3_program(ci: usize, wi: usize, xi: usize) -> (String, String) {
+    let (cn, c) = MATRIX_CONSTRUCTS[ci];
+    let (wn, w) = MATRIX_WRAPPERS[wi];
+    let (xn, x) = MATRIX_CONTEXTS[xi];
+    let c = c.replace('Q', "qq");
+    let inner = w.replace('H', &c);
+    let body = x.replace('H', &inner);
+    (format!("{}@{}@{}", cn, wn, xn), format!("{}{}\n{}", MATRIX_PRELUDE, body, MATRIX_PROBE))
+}
+
 pub fn matrix_size() -> usize {
     MATRIX_CONSTRUCTS.len() * MATRIX_CONTEXTS.len()
 }
